@@ -112,7 +112,11 @@ def chk_prog(case):
 def chk_witness(case):
     import bits.script as bs
     seed = case["seed"]
-    items = [data(seed, n) for n in case["lens"]]
+    if "items" in case:
+        items = [bytes.fromhex(x) for x in case["items"]]
+        case = dict(case, lens=[len(i) for i in items])
+    else:
+        items = [data(seed, n) for n in case["lens"]]
     tail = bytes.fromhex(case["tail"])
     exp = TR.compact(len(items)) + b"".join(TR.compact(len(i)) + i for i in items)
     got = call(bs.script, [i.hex() for i in items], witness=True)
@@ -252,6 +256,9 @@ def seq_ops(job):
     ops.append(("builder", {"seed": seed, "builder": "p2sh_multisig_sig", "n": 71, "sigs": [71, 72]}))
     ops.append(("builder", {"seed": seed, "builder": "multisig_pubkey", "m": 2, "keys": [33, 65, 33]}))
     ops.append(("builder", {"seed": seed, "builder": "nulldata", "n": 80}))
+    for txt in (b"OP_RETURN", b"OP_0", b"OP_", b"OP_HELLO world", b"op_return", b"OP_DUP OP_HASH160"):
+        ops.append(("prog", {"seed": seed, "prog": [["hex", txt.hex()]]}))
+        ops.append(("witness", {"seed": seed, "items": [txt.hex()], "tail": ""}))
     ops.append(("bad", {"seed": seed}))
     ops.append(("bad", {"seed": seed, "witness": True}))
     return ops
